@@ -24,9 +24,9 @@ Definition cfg_default : config := {| cfg_max_bytes := 1073741824; cfg_depth := 
 
 Definition path (x : string) : list seg := split_slash (bytes x).
 
-(* 6: a file two levels below a deleted directory stays reachable *)
+(* 6 (fixed by 85791d6b): a file two levels below a deleted directory *)
 Definition w_deep_whiteout : image := img [[reg "a/b/c" 420 "old"]; [wh ".wh.a"]].
-(* 7: a regular file replaces a directory; the former children stay reachable *)
+(* 7 (fixed by 1c13035d): a regular file replaces a directory *)
 Definition w_dir_to_file : image := img [[dir "a" 493; reg "a/b" 420 "old"]; [reg "a" 420 "new"]].
 (* 8: opaque whiteout *)
 Definition w_opaque : image := img [[dir "a" 493; reg "a/b" 420 "old"]; [dir "a" 493; wh "a/.wh..wh..opq"]].
@@ -47,11 +47,9 @@ Definition w_empty_dir_vanishes : image :=
 (* new: a requirer deletes the content of files that earlier views still list *)
 Definition w_requirer_content : image := img [[reg "f" 420 "keep me"]; [reg "g" 420 "wanted"]].
 Definition cfg_req_g : config := {| cfg_max_bytes := 1073741824; cfg_depth := 6; cfg_req := Some [bytes "g"] |}.
-(* new: a file of exactly MaxFileBytes bytes is dropped *)
-Definition w_size_boundary : image := img [[reg "f" 420 "abcd"]].
+(* a file of exactly MaxFileBytes bytes is never exposed (C10), in the code and in the spec alike *)
+Definition w_size_boundary : image := img [[reg "f" 420 "abcd"; reg "g" 420 "abc"]].
 Definition cfg_max4 : config := {| cfg_max_bytes := 4; cfg_depth := 6; cfg_req := None |}.
-(* new: the same member twice in one tar: the first one wins *)
-Definition w_duplicate : image := img [[reg "a" 420 "first"; reg "a" 384 "second!"]].
 (* new: the marking of link targets depends on the visiting order *)
 Definition w_order : image := img [[sym "s1" "/s2"; sym "s2" "/f"; reg "f" 420 "target"]].
 Definition cfg_order : config :=
